@@ -244,6 +244,8 @@ def _run(ctx, quick, pool):
         "against tensor identity of the next trial's input (clauses Tiling, HalfStepValue)",
         "error norm recomputed in float64 without the eps floors; estimates below 1e-6 are not compared",
         "initial dt >= dt_min in every generated case (the property presupposes it)",
+        "termination is decided by watchdogs: trials <= 4 (span/dt_min + 1) + 50, and at most 400 consecutive rejected trials "
+        "from one start time (the real controller shrinks by >= 6.8% per rejection: <= 135 rejections from span to span/2^14)",
     ]
     ctx.notes["behaviours_enumerated_by_tlc"] = len(behs)
     ctx.notes["exact_replays"] = n_exact
